@@ -735,6 +735,24 @@ class Facts:
         return self.IN.get(node)
 
 
+def normal_exit_states(F, g):
+    """(node, state) for every edge into the exit on which no throw has happened: the state after the node's transfer
+    function and the edge function (a function may end in the not-taken edge of a branch)"""
+    for p, l in g.exit.pred:
+        st = F.IN.get(p)
+        if st is None:
+            continue
+        if F.follow is not None and not F.follow(p, g.exit, l):
+            continue
+        st = F._transfer(p, st)
+        if st is UNIVERSE:
+            continue
+        st = F._edge(p, l, g.exit, st)
+        if st is INFEASIBLE or st is UNIVERSE:
+            continue
+        yield p, st
+
+
 def world_follow(fn, varkey, w):
     """edge filter: only edges consistent with the integer variable `varkey`
     having the concrete value w (conditions on other things are not decided)"""
